@@ -249,9 +249,12 @@ def gen_ops(rng, n):
     # (complete in the thorough tier for 4 configurations), depth 3 sampled
     e1, n1 = exhaustive(rng, 1, 10 ** 9, range(8))
     out += e1
-    e2, n2 = exhaustive(rng, 2, int(n * 0.45) if not thorough else 10 ** 9,
-                        range(8) if not thorough else (0, 3, 5, 6))
+    e2, n2 = exhaustive(rng, 2, int(n * 0.45), range(8))
     out += e2
+    if thorough:   # depth 2 complete for one trait configuration (chosen by the seed)
+        e2c, n2c = exhaustive(rng, 2, 10 ** 9, (rng.randrange(8),))
+        out += e2c
+        n2 += n2c
     e3, n3 = exhaustive(rng, 3, int(n * 0.15), range(8))
     out += e3
     # random long sequences
@@ -304,6 +307,11 @@ def monitor(op, out, st):
         st['first'] = True
     t = op.split()
     ev, res, bad = parse_out(out)
+    exp = None
+    if t[0] != 'reset':
+        # the specification advances on every op, whatever the checks below find
+        st['ops'] += 1
+        exp = st['spec'].apply(t)
     if bad:
         return f'heap misuse detected in the real run: {" ".join(bad)}'
     ctor, dtor, blocks = st['ctor'], st['dtor'], st['blocks']
@@ -352,10 +360,7 @@ def monitor(op, out, st):
         new_seq_state(st)
         st['first'] = False
         return msg
-    st['ops'] += 1
     sp = st['spec']
-    before = list(sp.slot)
-    exp = sp.apply(t)
     got = ' '.join(res)
     # ---- outcome: exceptions exactly where the specification says
     if isinstance(exp, str):
@@ -422,7 +427,7 @@ if __name__ == '__main__':
         C.repo_lib_sources(['demangled-typename']),
         harness_flags=san, harness_ldflags=san,
         gen_ops=gen_ops, monitor=monitor, nontrivial=nontrivial, extra_stage=extra_stage,
-        n_quick=120000, n_thorough=1500000, search_factor=2,
+        n_quick=120000, n_thorough=800000, search_factor=2,
         trusted_base=[
             'Lean 4.33 kernel (axioms: propext, Classical.choice, Quot.sound)',
             'gen/cxxparse.py + gen/lean_emit.py + gen/gen_c16.py (translator: sentinels, ownership / '
@@ -440,7 +445,7 @@ if __name__ == '__main__':
                      'payload move constructors do not throw; allocators do not throw'],
         rule='sequences over a pool of 3 wrappers: exhaustive depth 1 (all 8 allocator-trait '
              'configurations × 9×9 initial contents × 38 mutators), depth 2 and 3 seeded sub-samples '
-             '(depth 2 complete for 4 configurations in the thorough tier), each mutator followed by '
+             '(depth 2 complete for one seed-chosen configuration in the thorough tier), each mutator followed by '
              'get on every slot; seeded random sequences of length 5..200; distinct = (op kind, '
              'event-kind string, outcome)',
     ))
